@@ -179,10 +179,15 @@ def _flow_scn(rng, g, ops, n_updates=1, with_mask=None, with_base=None, acc=Fals
         z = gen.elevation(rng, g, rng.choice(families) if families else None)
         lines.append("update " + gen.hexes(z))
         if acc:
+            # source magnitude: the recurrence and conservation are stated for every finite source, so a
+            # third of the calls scale it far away from 1 (a "skip the node when its value is below
+            # epsilon" shortcut is right for O(1) sources and exact zeros and wrong for 1e-18; the
+            # scales keep every product inside the normal double range)
+            sc = rng.choice([1e-18, 1e-30, 1e-200, 1e12, 1e150]) if rng.random() < 0.33 else 1.0
             if rng.random() < 0.5:
-                lines.append("acc a " + gen.hexes([rng.choice([0.0, 1.0, rng.random() * 3, rng.uniform(-1, 2)]) for _ in z]))
+                lines.append("acc a " + gen.hexes([sc * rng.choice([0.0, 1.0, rng.random() * 3, rng.uniform(-1, 2)]) for _ in z]))
             else:
-                lines.append("acc s " + hx(rng.choice([1.0, 0.0, 2.5, -1.0])))
+                lines.append("acc s " + hx(sc * rng.choice([1.0, 0.0, 2.5, -1.0])))
         if basins:
             lines.append("basins")
             if rng.random() < 0.3:
